@@ -41,6 +41,21 @@ var handPairs = []handPair{
 		new: map[string]string{"inc.frugal": "typedef string Id\n", "root.frugal": "include \"inc.frugal\"\nstruct S {\n  1: inc.Id id,\n}\n"},
 	},
 	{
+		name: "typedef two includes away retargeted (api -> model -> ids, api does not include ids), bare alias chain", sig: "C18:missed-breaking:retarget-typedef:via-typedef:via-include:transitive-chain", wantFail: true, root: "api.frugal",
+		old: map[string]string{"ids.frugal": "typedef i32 Id\n", "model.frugal": "include \"ids.frugal\"\ntypedef ids.Id Handle\n", "api.frugal": "include \"model.frugal\"\nstruct S {\n  1: model.Handle h,\n}\n"},
+		new: map[string]string{"ids.frugal": "typedef i64 Id\n", "model.frugal": "include \"ids.frugal\"\ntypedef ids.Id Handle\n", "api.frugal": "include \"model.frugal\"\nstruct S {\n  1: model.Handle h,\n}\n"},
+	},
+	{
+		name: "typedef two includes away retargeted, reached inside a container alias of the middle file", sig: "C18:missed-breaking:retarget-typedef:via-typedef:via-include:transitive-container-alias", wantFail: true, root: "api.frugal",
+		old: map[string]string{"ids.frugal": "typedef i32 Id\n", "model.frugal": "include \"ids.frugal\"\ntypedef list<ids.Id> Handles\n", "api.frugal": "include \"model.frugal\"\nstruct S {\n  1: model.Handles hs,\n}\n"},
+		new: map[string]string{"ids.frugal": "typedef i64 Id\n", "model.frugal": "include \"ids.frugal\"\ntypedef list<ids.Id> Handles\n", "api.frugal": "include \"model.frugal\"\nstruct S {\n  1: model.Handles hs,\n}\n"},
+	},
+	{
+		name: "alias inlined inside a container alias of the middle file (same underlying type)", sig: "C18:false-alarm:inline-typedef-use:nested:via-typedef:via-include:transitive", wantFail: false, root: "api.frugal",
+		old: map[string]string{"ids.frugal": "typedef i32 Id\n", "model.frugal": "include \"ids.frugal\"\ntypedef list<ids.Id> Handles\n", "api.frugal": "include \"model.frugal\"\nstruct S {\n  1: model.Handles hs,\n}\n"},
+		new: map[string]string{"ids.frugal": "typedef i32 Id\n", "model.frugal": "include \"ids.frugal\"\ntypedef list<i32> Handles\n", "api.frugal": "include \"model.frugal\"\nstruct S {\n  1: model.Handles hs,\n}\n"},
+	},
+	{
 		name: "last default field removed", sig: "C18:missed-breaking:remove-field", wantFail: true, root: "a.thrift",
 		old: map[string]string{"a.thrift": "struct S {\n  1: i32 a,\n  2: optional i32 b,\n  3: string c,\n}\n"},
 		new: map[string]string{"a.thrift": "struct S {\n  1: i32 a,\n  2: optional i32 b,\n}\n"},
